@@ -92,10 +92,10 @@ def _materialise(lab, typ, pos):
     return None
 
 
-def _functions(src):
+def _functions(src, prefix=r"/\*gpufun\*/"):
     """split generated source into {name: (decl, text)}"""
     out = {}
-    for mm in re.finditer(r"(?m)^(/\*gpufun\*/[^\n{;]*?\b([A-Za-z_0-9]+)\(([^)]*)\))\s*\{", src):
+    for mm in re.finditer(r"(?m)^(" + prefix + r"[^\n{;]*?\b([A-Za-z_0-9]+)\(([^)]*)\))\s*\{", src):
         start = mm.start()
         depth, i = 0, src.index("{", mm.end() - 1)
         j = i
@@ -169,6 +169,54 @@ def _path_fun_names(lab, zoo, path):
     return names
 
 
+ZOO_TYPENAMES = {"Big", "T", "U", "ArrNFloat64", "ArrNT", "ArrNString", "Arr2x3Int16", "ArrNx3Float32"}
+
+
+def accessor_mismatches(Z, texts):
+    """`texts`: {accessor name: text of its definition}.  Every get/set/getp accessor of every data path of the zoo is
+    evaluated on the abstract memory for every in-range index tuple; returns [(name, params, nf, n_idx, bad)] with bad
+    None or (indices, C position, Python position)."""
+    lab, zoo, mem = Z["lab"], Z["zoo"], Z["mem"]
+    I = lab.I
+    base = pol(I.getattr(zoo["big"], "_offset"))
+    out = []
+    for p in Z["paths"]:
+        idx_sets = sorted({k[1] for k in Z["locs"] if k[0] == id(p)})
+        for _, cname in Z["methods"][id(p)]:
+            action = cname.split("_")[1]
+            if not (action in ("get", "set") or action.startswith("getp")):
+                continue
+            text = texts.get(cname)
+            if text is None:
+                out.append((cname, "", "", 0, ("-", "accessor not found in the text", "")))
+                continue
+            params = text[text.index("(") + 1 : text.index(")")]
+            stmts = parse_body(text, ZOO_TYPENAMES)
+            bad = None
+            for idxs in idx_sets:
+                want = Z["locs"][(id(p), idxs)]
+                if want is None:
+                    continue
+                env = {f"i{k}": Poly.const(v) for k, v in enumerate(idxs)}
+                env["value"] = Poly.atom("value")
+                ev = CEval(mem, base, env)
+                r = ev.run(stmts)
+                got = base + ev.env["offset"]
+                if got != pol(want):
+                    bad = (idxs, got - base, pol(want) - base)
+                    break
+                if r is not None and r[0] == "return" and isinstance(r[1], tuple) and r[1][0] == "tptr" and r[1][1] != ev.env["offset"]:
+                    bad = (idxs, r[1][1], ev.env["offset"])
+                    break
+                if r is not None and r[0] == "store":
+                    tgt = r[1]
+                    if not (isinstance(tgt, tuple) and tgt[0] == "tptr" and tgt[1] == ev.env["offset"]):
+                        bad = (idxs, tgt, ev.env["offset"])
+                        break
+            out.append((cname, strip_comments(params).strip(), " ".join(strip_comments(text).split())[:160], len(idx_sets), bad))
+    return out
+
+
 @rule("T3z", ["C02", "C07"], "type zoo: every generated accessor of every data path computes the address the Python locators compute")
 def t3z(cx):
     Z = _zoo_sources(cx)
@@ -176,7 +224,7 @@ def t3z(cx):
     I = lab.I
     funs = _functions(Z["src"])
     cx.need(len(funs) >= 60, f"only {len(funs)} generated functions recognised")
-    typenames = {"Big", "T", "U", "ArrNFloat64", "ArrNT", "ArrNString", "Arr2x3Int16", "ArrNx3Float32"}
+    typenames = ZOO_TYPENAMES
     base = pol(I.getattr(zoo["big"], "_offset"))
     n = 0
     import itertools
